@@ -12,3 +12,5 @@ import SJ.Props.C04
 #print axioms SJ.Props.C04.c04_reparse_ap
 #print axioms SJ.Props.C04.c04_value_fr
 #print axioms SJ.Props.C04.c04_typed_partial
+#print axioms SJ.Props.C04.c04_typed_fr
+#print axioms SJ.Props.C04.c04_typed_nofloat
